@@ -457,6 +457,37 @@ def run_one(prop, name, path, old, new, tier, runs=None):
   finally:
     shutil.rmtree(tmp, ignore_errors=True)
 
+# ---- the repairs of session 3 taken back (each must be reported again)
+mut("C06", "repair-undone-linearize-tee", FI,
+    "          if isinstance(v, Stream): # Needed twice: once for each "
+    "neighbour\n            v = thub(v, 2)\n", "")
+mut("C06", "repair-undone-rational-gain", FI,
+    'expr = "({expr}) / ({gain})".format(expr=expr, gain=gain)',
+    'expr = "({expr}) / {gain}".format(expr=expr, gain=gain)')
+mut("C06", "repair-undone-call-keeps-the-filter", FI,
+    '      den = Poly(self.denpoly) # A new Poly: "self" must be kept as it '
+    'is\n', "      den = self.denpoly\n")
+mut("C06", "repair-undone-poly-division-tee", PO,
+    "        value = thub(value, len(self)) # Needed once for each term\n",
+    "")
+mut("C06", "repair-undone-substitution-copy", FI,
+    "      return sum(v * seq.copy() ** -k for k, v in "
+    "self.numpoly.terms()) / \\\n             sum(v * seq.copy() ** -k",
+    "      return sum(v * seq ** -k for k, v in "
+    "self.numpoly.terms()) / \\\n             sum(v * seq ** -k")
+mut("C02", "repair-undone-hub-attribute-broadcast", ST,
+    "    return Stream(getattr(a, name) for a in iter(self))",
+    "    return Stream(getattr(a, name) for a in self._data)")
+mut("C02", "repair-undone-hub-call-broadcast", ST,
+    "    return Stream(a(*args, **kwargs) for a in iter(self))",
+    "    return Stream(a(*args, **kwargs) for a in self._data)")
+mut("C17", "repair-undone-recordings-lock", IO,
+    '    with self.lock: # A "record" call might be adding another one right '
+    'now\n      self._recordings = [rec for rec in self._recordings if rec '
+    'is not recst]',
+    '    if True:\n      self._recordings = [rec for rec in self._recordings '
+    'if rec is not recst]')
+
 
 def main():
   args = sys.argv[1:]
